@@ -41,6 +41,7 @@ def run(prog, R, tier="quick", only_rule=None):
     # a ranged scan from either end clamps every freshly loaded block on both sides
     from rules.props import c03
     c03.c03f(prog, R, rid="C12.g")
+    c03.c03k(prog, R, rid="C12.h")
 
 
 def arith_skeleton(body, drop_methods=()):
@@ -59,8 +60,8 @@ def arith_skeleton(body, drop_methods=()):
     return out
 
 
-def c12a(prog, R):
-    r = R.rule("C12.a", "filter set / probe twins agree", "G")
+def c12a(prog, R, rid="C12.a"):
+    r = R.rule(rid, "filter set / probe twins agree", "G")
     s = prog.hir.get("table::filter::standard_bloom::builder::Builder::set_with_hash")
     p = prog.hir.get("table::filter::standard_bloom::StandardBloomFilterReader::<'a>::contains_hash")
     if not s or not p:
@@ -115,7 +116,26 @@ def c12a(prog, R):
         r.check(ok and hints_ok, "bloom header|build <-> new (magic, type, hash, m, k, bits)", "filter header layouts differ: %s vs %s" % (W, Rr), "")
     else:
         r.anchor_missing("bloom Builder::build / Reader::new")
-    r.floor(7)
+    # a filter partition answers for every version of the keys it covers: its index entry is (last key, seqno 0), so that
+    # the index seek (key, snapshot) - which skips an entry whose end key equals the needle and whose seqno >= snapshot -
+    # never skips the partition that holds the key (block-index entries carry the real seqno because a key's versions can
+    # span data blocks; a key's hash lives in exactly one filter partition)
+    from rules.engine import origins
+    g = prog.fn("table::writer::filter::partitioned::PartitionedFilterWriter::spill_filter_partition")
+    if g is None:
+        r.anchor_missing("PartitionedFilterWriter::spill_filter_partition")
+    else:
+        kb = [c for c in g.calls if c.sres.endswith("KeyedBlockHandle::new")]
+        ok = bool(kb)
+        detail = ""
+        for c in kb:
+            os_ = origins(g, c.args[1])
+            detail = str(os_)
+            ok = ok and bool(os_) and all(o.kind == "const" and str(o.what) == "0" for o in os_)
+        r.check(ok, "PartitionedFilterWriter::spill_filter_partition|index entry = (last key, seqno 0)",
+                "a filter partition is indexed under a non-zero seqno: a point read at a snapshot at or below it skips the "
+                "partition that holds the key and the next partition's filter rejects it", g.where(), detail)
+    r.floor(8)
 
 
 ENUMS = ["table::block::r#type::BlockType", "value_type::ValueType", "compression::CompressionType", "TreeType", "checksum::ChecksumType"]
